@@ -58,6 +58,12 @@ SHAPES = [
     {"k": "set", "values": ["ON", "CACHE", "BOOL", '"help text"']},             # a cache entry is a set() like any other
     {"k": "set", "values": ["v", "CACHE", "STRING", '"doc"', "FORCE"]},
     {"k": "set", "values": ["${x}", "PARENT_SCOPE"]},
+    {"k": "set", "name": '"${PN}_VERSION"', "values": ["1.0"]},                  # variable names written as quoted / bracket arguments
+    {"k": "set", "name": "[[BRNAME]]", "values": ["1"]},
+    {"k": "set", "name": '"quoted plain"', "values": ["1.0"]},
+    {"k": "set", "name": "A@B", "values": ["1"]},
+    {"k": "set", "name": "ns::v", "values": ["<x>"]},
+    {"k": "option", "name": '"${PN}_ENABLE"', "help": '"h"', "default": "ON"},
     {"k": "function", "params": ["a", "b", "c", "d", "e"]},
     {"k": "function", "params": []},
     {"k": "macro", "params": []},
